@@ -146,7 +146,22 @@ def summary(fnode, name_map=None, call_alias=None, unroll=(0, 1, 2), ignore_call
             return None
         return sorted(items, key=repr)
 
+    def _canon(lits):
+        # the order in which independent tests are made is not behaviour: each maximal run of plain condition literals (between loop /
+        # iteration markers) is compared as a set (`if a is None: a = 1` / `if b is None: b = 1` in either order)
+        res, run = [], []
+        for x in lits:
+            if isinstance(x, tuple) and x and x[0] in ('T', 'F'):
+                run.append(x)
+            else:
+                res.extend(sorted(set(run), key=repr))
+                run = []
+                res.append(x)
+        res.extend(sorted(set(run), key=repr))
+        return tuple(res)
+
     def finish(p, lits, effects, outcome):
+        lits = _canon(lits)
         if outcome is None:
             outcome = ('return', ('const', None)) if p.exit in ('fall', 'return') else (p.exit,)
         # a conditional expression in the returned value is a branch: `return a if c else b` == `if c: return a` / `return b`
@@ -156,7 +171,7 @@ def summary(fnode, name_map=None, call_alias=None, unroll=(0, 1, 2), ignore_call
             except AnalysisError:
                 split = [((), outcome[1])]
             for cl, leaf in split:
-                out.add((tuple(lits) + tuple(_lit(c, tr) for c, tr in cl), tuple(effects), ('return', leaf)))
+                out.add((_canon(tuple(lits) + tuple(_lit(c, tr) for c, tr in cl)), tuple(effects), ('return', leaf)))
             return
         out.add((tuple(lits), tuple(effects), outcome))
 
